@@ -728,6 +728,13 @@ def scripted():
     # 150 ms): the destructor must wait and still send exactly one Remove command
     h('drop-while-conductor-locked', 'hb 1000000; ap 1 1; as 1 1; ac 1 1 1; we pr 1 1 1 5 3 4; we sr 2 6; we cr 3 9; fp 1; fs 2; fc 3; we ai 70 1 1 2; Dp 1; Ds 2; Dc 3; fp 1; fs 2; fc 3; Dp 1; Dc 3')
     h('drop-while-conductor-locked-after-close', 'hb 1000000; ap 1 1; ac 1 1 1; we pr 1 1 1 5 3 4; we cr 2 9; fp 1; fc 2; cl; Dp 1; Dc 2; fp 1')
+    # the client id is a value of the driver's 64-bit correlation counter: heartbeat counter found / lost / slot reused with ids beyond 32 bits
+    for c0 in (2 ** 31, 2 ** 32 + 5, 2 ** 40):
+        a = c0 + 1
+        h('heartbeat-lost-client-id-%d' % c0, 'hb 1000000; hc 1; as 1 1; tk 501; w; we sr %d 6; fs %d; tk 501; w; hc 2; tk 501; w; fs %d; ps %d; tk 501; w' % (a, a, a, a),
+          cfg=(c0, 1000000, 10000, 5000))
+        h('heartbeat-slot-reused-other-client-id-%d' % c0, 'hb 1000000; hc 1; as 1 1; tk 501; w; we sr %d 6; fs %d; hc 3; tk 501; w; fs %d; ps %d' % (a, a, a, a),
+          cfg=(c0, 1000000, 10000, 5000))
     if has_find_excl_hook():
         h('chan-error-xpub', 'hb 1000000; ax 1 1; ax 2 2; ax 3 3; we xr 1 1 5 3 6; we xr 2 2 5 3 6; we xr 3 3 5 3 7; fx 1; fx 3; we er 6 4; px 1; fx 1; fx 2; fx 3; px 3; dx 1; we er 6 4; fx 2; cl')
     if has_find_excl_hook():
